@@ -270,6 +270,12 @@ class SymInt:
             return self
         if m & (m - 1) == 0:
             return SymInt(self.t & z3.BitVecVal(m - 1, W), 0, m - 1)
+        if self.lo >= 0:
+            # value provably in [0, hi]: do the remainder on the narrowest sufficient width
+            k = max(_bits(self.hi), _bits(m)) + 1
+            if k < W:
+                r = z3.URem(z3.Extract(k - 1, 0, self.t), z3.BitVecVal(m, k))
+                return SymInt(z3.ZeroExt(W - k, r), 0, m - 1)
         return SymInt(z3.simplify(self.t % z3.BitVecVal(m, W)), 0, m - 1)  # bvsmod
 
     def __floordiv__(self, o):
@@ -283,6 +289,10 @@ class SymInt:
             return SymInt(self.t >> k, self.lo >> k, self.hi >> k)
         if self.lo < 0:
             raise EngineLimit("floor division of possibly negative value")
+        k = max(_bits(self.hi), _bits(m)) + 1
+        if k < W:
+            q = z3.UDiv(z3.Extract(k - 1, 0, self.t), z3.BitVecVal(m, k))
+            return SymInt(z3.ZeroExt(W - k, q), self.lo // m, self.hi // m)
         return SymInt(z3.UDiv(self.t, z3.BitVecVal(m, W)), self.lo // m, self.hi // m)
 
     # -- bit operations
